@@ -221,7 +221,18 @@ func genSeq(r *rand.Rand, id int, long, wideTTL bool) []string {
 			}
 			o = append(o, ln("seq", "S", scope(), u(prev), pdv().String()))
 		default:
-			o = append(o, ln("seq", "I", i([]int64{0, -1, 1, 1000000, 2000000000, 600000000}[r.Intn(6)])))
+			switch r.Intn(3) {
+			case 0:
+				o = append(o, ln("seq", "I", i([]int64{0, -1, 1, 1000000, 2000000000, 600000000}[r.Intn(6)])))
+			case 1: // pass-through: PD's min ts (any value, also below the cached one; not an issued ts)
+				m := pdres{p: clk.p - r.Int63n(5), l: r.Int63n(1 << 18)}
+				if r.Intn(8) == 0 {
+					m = pdres{err: true}
+				}
+				o = append(o, ln("seq", "M", m.String()))
+			default:
+				o = append(o, ln("seq", "E", u([]uint64{0, 1, pick(), pick() + 5, math.MaxUint64}[r.Intn(5)])))
+			}
 		}
 	}
 	for _, f := range futs {
